@@ -91,9 +91,11 @@ func newDriver(comp int64, cfg []int64) driver {
 	case compGW:
 		return newGwDrv(arg(0))
 	case compLBS:
-		return newLbsDrv(arg(0), arg(1))
+		return newLbsDrv(arg(0), arg(1), len(cfg) >= 3, arg(2))
 	case compPCR:
 		return newPcrDrv(arg(1), arg(2))
+	case compRR:
+		return newRrDrv()
 	}
 
 	return nil
